@@ -21,6 +21,10 @@ def sval(rng, w, style):
         return hi
     if r < 0.3:
         return rng.choice([0, -1, 1])
+    if r < 0.45:
+        # +-2^k and neighbours: the minimum / invalid marker / carry point of some field at some resolution
+        k = rng.randint(0, w - 1)
+        return max(lo, min(hi, rng.choice([-1, 1]) * (1 << k) + rng.choice([-1, 0, 0, 0, 1])))
     return rng.randint(lo, hi)
 
 
